@@ -109,12 +109,13 @@ func runNative(ld *Loaded, cases []ReplayCase, race bool, isolate bool) (map[int
 			log.Write(out)
 			return results, log.String(), fmt.Errorf("building the native replay binary for %s failed: %v", rel, err)
 		}
-		runOne := func(casePath string) ([]byte, error) {
+		runLoops := func(casePath string, loops int) ([]byte, error) {
 			c := exec.Command(bin, "-test.run", "^TestVerifReplay$", "-test.v", "-test.timeout", "20m")
 			c.Dir = dir
-			c.Env = append(append([]string{}, env...), "VERIF_REPLAY_FILE="+casePath)
+			c.Env = append(append([]string{}, env...), "VERIF_REPLAY_FILE="+casePath, fmt.Sprintf("VERIF_PAR_LOOPS=%d", loops))
 			return c.CombinedOutput()
 		}
+		runOne := func(casePath string) ([]byte, error) { return runLoops(casePath, 1) }
 		if !isolate {
 			out, err := runOne(casePath)
 			log.Write(out)
@@ -167,7 +168,7 @@ func runNative(ld *Loaded, cases []ReplayCase, race bool, isolate bool) (map[int
 						bwg.Add(1)
 						go func() {
 							defer bwg.Done()
-							o, _ := runOne(cp)
+							o, _ := runLoops(cp, 1+8*(b%3))
 							bmu.Lock()
 							if hit(o) && !hit(out) {
 								out = o
